@@ -13,6 +13,7 @@ import (
 	"time"
 
 	"github.com/baidu/go-lib/log"
+	"github.com/baidu/go-lib/web-monitor/web_monitor"
 	"github.com/bfenetworks/bfe/bfe_config/bfe_conf"
 	"github.com/bfenetworks/bfe/bfe_modules"
 	"github.com/bfenetworks/bfe/bfe_server"
@@ -268,3 +269,68 @@ func ReadAllTimeout(c net.Conn, d time.Duration) (data []byte, closed bool) {
 }
 
 var _ = io.EOF
+
+// ReloadModule calls the reload handler a module registered with the web monitor
+// (what `curl monitor:port/reload/<name>?path=...` would run).
+func (r *Rig) ReloadModule(name, path string) error {
+	h, err := r.Srv.Monitor.WebHandlers.GetHandler(web_monitor.WebHandleReload, name)
+	if err != nil {
+		return err
+	}
+	q := url.Values{}
+	if path != "" {
+		q.Set("path", path)
+	}
+	switch f := h.(type) {
+	case func(url.Values) error:
+		return f(q)
+	case func(map[string][]string) error:
+		return f(q)
+	case func() error:
+		return f()
+	}
+	return fmt.Errorf("reload handler of %s has unsupported type %T", name, h)
+}
+
+// FakeAddrListener reports a harness-chosen RemoteAddr for each accepted connection.
+type FakeAddrListener struct {
+	net.Listener
+	mu   sync.Mutex
+	next *net.TCPAddr
+}
+
+func NewFakeAddrListener() (*FakeAddrListener, error) {
+	ln, err := net.Listen("tcp", "127.0.0.1:0")
+	if err != nil {
+		return nil, err
+	}
+	return &FakeAddrListener{Listener: ln}, nil
+}
+
+// SetNext sets the address the next accepted connection will report.
+func (l *FakeAddrListener) SetNext(a *net.TCPAddr) {
+	l.mu.Lock()
+	l.next = a
+	l.mu.Unlock()
+}
+
+type fakeAddrConn struct {
+	net.Conn
+	remote *net.TCPAddr
+}
+
+func (c *fakeAddrConn) RemoteAddr() net.Addr { return c.remote }
+
+func (l *FakeAddrListener) Accept() (net.Conn, error) {
+	c, err := l.Listener.Accept()
+	if err != nil {
+		return nil, err
+	}
+	l.mu.Lock()
+	a := l.next
+	l.mu.Unlock()
+	if a == nil {
+		return c, nil
+	}
+	return &fakeAddrConn{Conn: c, remote: a}, nil
+}
